@@ -98,7 +98,7 @@ def run(ctx):
         last = [e for e in evs if e["ev"] == "e2e-conn-done"][-1]
         end = [e for e in evs if e["ev"] == "e2e-end"][-1]
         runs.append(dict(kind="predict", settings=settings, fps=fps, model=model, model_events=mev, result=last, scen=scen,
-                         expected_motion={}))
+                         expected_motion={}, bus=end["bus"]))
         events.append(dict(ev="e2eclears", sent=nclear, seen=end["clears"]))
         for e in evs:
             if e["ev"] == "e2e-dbus" and e["member"] == "CameraInfo" and "reply" in e:
